@@ -662,6 +662,14 @@ func (vc *FuncVC) trCall(e *env, n *ECall) Term {
 				}
 			}
 			return e.fail("%s() on non-map", f.Name)
+		case "fnref": // fnref("pkg.F"): the func value of the named top-level function F
+			if st, ok := n.Args[0].(*EStr); ok {
+				key := st.V
+				if fn := vc.eng.fnByKey[key]; fn != nil {
+					return vc.funcRef(fn, nil, nil)
+				}
+				return e.fail("unknown function %q", key)
+			}
 		case "arrof": // arrof(s): the backing array of a slice (to state that two slices do not share one)
 			if args[0].Sort != "Slice" {
 				return e.fail("arrof needs a slice")
